@@ -37,6 +37,7 @@ REGISTRY["C14"] = {
          "shards": {"quick": 4, "thorough": 16}},
         {"name": "TestC14Loop", "mode": "rapid", "checks": {"quick": 300, "thorough": 6000},
          "shards": {"quick": 4, "thorough": 16}},
+        {"name": "TestC14Ring", "checks": {"quick": 150, "thorough": 5000}, "shards": {"quick": 4, "thorough": 8}},
         # catch events with a timer AND a signal definition (plain multiple / parallel-multiple) in two instances of one parsed model that share one
         # timer definition builder, one tracer and one event bus: the C13 two-instance campaign, run here as part of this check
         {"name": "TestC13TwoInstances", "pkg": "props/c13", "label": "timer-and-signal-two-instances", "checks": {"quick": 300, "thorough": 4000}, "shards": {"quick": 4, "thorough": 8}},
